@@ -47,7 +47,7 @@ ASSUMPTIONS = [
     'single process: overlapping transactions of several processes are '
     'out of reach',
 ]
-CASE_TIMEOUT = 240
+CASE_TIMEOUT = 900
 
 
 def gen_scenario(rng, impl):
